@@ -427,14 +427,66 @@ def ts_attach_shadow(m, a, c):
     return bool(m.notes.get("sink_attach_shadow", False))
 
 
+def _local_is(m, nd, name):
+    return nd["kind"] == "element" and m.branch_bool(seq_eq(nd["name"].f[2].ch, [ord(x) for x in name]), "element named " + name)
+
+
+def _has_attr(m, nd, name):
+    return any(m.branch_bool(seq_eq(a.f[0].f[2].ch, [ord(x) for x in name]), "attribute named " + name) for a in nd["attrs"])
+
+
+def _clone_subtree(st, h, parent):
+    src = st["nodes"][h]
+    st["hidden"] = st.get("hidden", 0) - 1
+    n = st["hidden"]
+    st["nodes"][n] = node(src["kind"], name=src["name"], attrs=[clone_val(a) for a in src["attrs"]], parent=parent,
+                          text=(list(src["text"]) if isinstance(src["text"], list) else src["text"]), flags=dict(src["flags"]))
+    st["nodes"][n]["children"] = [_clone_subtree(st, k, n) for k in src["children"]]
+    return n
+
+
 @model("<Sink as TreeSink>::maybe_clone_an_option_into_selectedcontent")
 def ts_clone_option(m, a, c):
+    """WHATWG 'maybe clone an option into selectedcontent' (selectedness approximated by the selected attribute, as RcDom does)"""
     st = state(m)
     h = H(a[1])
     st["calls"].append(("maybe_clone_an_option_into_selectedcontent", h))
-    if need_element(st, h, "maybe_clone_an_option_into_selectedcontent"):
-        if not m.branch_bool(seq_eq(st["nodes"][h]["name"].f[2].ch, [ord(x) for x in "option"]), "option element"):
-            bad(st, "maybe_clone_an_option_into_selectedcontent called on %s, which is not an option element" % describe(st, h))
+    if not need_element(st, h, "maybe_clone_an_option_into_selectedcontent"):
+        return UNIT
+    N = st["nodes"]
+    if not m.branch_bool(seq_eq(N[h]["name"].f[2].ch, [ord(x) for x in "option"]), "option element"):
+        bad(st, "maybe_clone_an_option_into_selectedcontent called on %s, which is not an option element" % describe(st, h))
+        return UNIT
+    # option element nearest ancestor select
+    select, seen_optgroup, cur = None, False, N[h]["parent"]
+    while cur is not None:
+        nd = N[cur]
+        if nd["kind"] == "element":
+            if _local_is(m, nd, "datalist") or _local_is(m, nd, "hr") or _local_is(m, nd, "option"):
+                break
+            if _local_is(m, nd, "optgroup"):
+                if seen_optgroup:
+                    break
+                seen_optgroup = True
+            if _local_is(m, nd, "select"):
+                select = cur
+                break
+        cur = nd["parent"]
+    if select is None or _has_attr(m, N[select], "multiple"):
+        return UNIT
+    # first selectedcontent descendant of select in tree order
+    target, stack = None, list(reversed(N[select]["children"]))
+    while stack:
+        k = stack.pop()
+        if _local_is(m, N[k], "selectedcontent"):
+            target = k
+            break
+        stack.extend(reversed(N[k]["children"]))
+    if target is None or not _has_attr(m, N[h], "selected"):
+        return UNIT
+    for k in N[target]["children"]:
+        N[k]["parent"] = None
+    N[target]["children"] = [_clone_subtree(st, k, target) for k in N[h]["children"]]
     return UNIT
 
 
